@@ -10,3 +10,4 @@ pub mod util;
 pub mod linecol;
 pub mod pratt;
 pub mod tt;
+pub mod jsonc;
